@@ -9,7 +9,23 @@ Open Scope Z_scope.
 (* ------------------------------------------------------------------------------------- *)
 (* Fixed: progress and termination of a Close under way                                     *)
 
-Definition closing (s : state) : Prop := clo s = C_called \/ clo s = C_waiting.
+(* a Close call that has closed closeCh / lost the CAS and has not returned yet *)
+Definition under_way (k : cpc) : Prop := k = C_called \/ k = C_waiting.
+
+(* some Close call is under way *)
+Definition closing (s : state) : Prop := under_way (clo s) \/ under_way (clo2 s).
+
+Lemma under_way_dec k : {under_way k} + {~ under_way k}.
+Proof.
+  unfold under_way. destruct k; [right | left; left | left; right | right];
+    try reflexivity; intros [X|X]; discriminate.
+Qed.
+
+Lemma closing_dec s : {closing s} + {~ closing s}.
+Proof.
+  unfold closing. destruct (under_way_dec (clo s)); [left; left; assumption|].
+  destruct (under_way_dec (clo2 s)); [left; right; assumption|]. right; tauto.
+Qed.
 
 Lemma window_len_pos c k : cfg_ok c -> 0 <= k -> 0 < window_len c k.
 Proof.
@@ -19,9 +35,8 @@ Qed.
 
 Lemma closing_closed c s : Inv c s -> closing s -> closed s = true.
 Proof.
-  intros (_ & _ & _ & _ & _ & _ & _ & _ & _ & _ & IC) Hcl.
-  destruct (closed s) eqn:E; [reflexivity|]. exfalso.
-  assert (clo s = C_idle) by (apply IC; reflexivity). destruct Hcl; congruence.
+  intros (_ & _ & _ & _ & _ & _ & _ & _ & _ & _ & IC & IC2) [[H|H]|[H|H]];
+    first [apply IC; congruence | apply IC2; congruence].
 Qed.
 
 (* some internal event is enabled *)
@@ -40,36 +55,39 @@ Proof.
     + destruct (0 <? inflight s) eqn:Ei.
       * exists SignalAbort; eexists; split; [reflexivity|]. cbn [step]. unfold sig_ctx_done.
         rewrite Ei, Er. cbn. rewrite orb_true_r. reflexivity.
-      * destruct Hcl as [Hcl|Hcl].
-        -- exists CloseLock; eexists; split; [reflexivity|]. cbn [step]. rewrite Hcl. cbn. reflexivity.
-        -- exists CloseReturn; eexists; split; [reflexivity|]. cbn [step]. unfold wg, run_alive.
-           rewrite Hcl, Er. cbn [cpc_eqb rpc_eqb andb].
-           replace (tokens s + inflight s + 0 =? 0) with true by lia. reflexivity.
+      * assert (Hwg : (wg s =? 0) = true) by (unfold wg, run_alive; rewrite Er; cbn [rpc_eqb]; lia).
+        destruct Hcl as [[Hcl|Hcl]|[Hcl|Hcl]].
+        -- exists CloseLock; eexists; split; [reflexivity|]. cbn [step lock_free]. rewrite Hcl. cbn. reflexivity.
+        -- exists CloseReturn; eexists; split; [reflexivity|]. cbn [step]. rewrite Hcl, Hwg. cbn. reflexivity.
+        -- exists Close2Lock; eexists; split; [reflexivity|]. cbn [step lock_free]. rewrite Hcl. cbn. reflexivity.
+        -- exists Close2Return; eexists; split; [reflexivity|]. cbn [step]. rewrite Hcl, Hwg. cbn. reflexivity.
 Qed.
 
 Lemma measure_nonneg c s : Inv c s -> 0 <= measure s.
 Proof.
-  intros ((P1 & P2 & P3 & _) & _). unfold measure, run_w, clo_w, due_w.
-  destruct (run s), (clo s), (timer_due s); lia.
+  intros ((P1 & P2 & P3 & _) & _). unfold measure, run_w, clo_w, cpc_w, due_w.
+  destruct (run s), (clo s), (clo2 s), (timer_due s); lia.
 Qed.
 
 Ltac proj :=
-  cbn [pending tokens inflight has_timer deadline cur_dur backoff closed ctx_done run clo now
+  cbn [pending tokens inflight has_timer deadline cur_dur backoff closed ctx_done run clo clo2 now
        adds dropped covered spawned delivered exts armed_at olog].
 
 Ltac proj_in H :=
-  cbn [pending tokens inflight has_timer deadline cur_dur backoff closed ctx_done run clo now
+  cbn [pending tokens inflight has_timer deadline cur_dur backoff closed ctx_done run clo clo2 now
        adds dropped covered spawned delivered exts armed_at olog] in H.
 
 Ltac mcrunch :=
-  unfold measure, run_w, clo_w, due_w, timer_due, set_run, set_clo; proj;
+  unfold measure, run_w, clo_w, cpc_w, due_w, timer_due, set_run, set_clo, set_clo2; proj;
   repeat match goal with H : run _ = _ |- _ => rewrite H end;
   repeat match goal with H : clo _ = _ |- _ => rewrite H end;
+  repeat match goal with H : clo2 _ = _ |- _ => rewrite H end;
   repeat match goal with H : has_timer _ = _ |- _ => rewrite H end;
   repeat match goal with H : (_ <=? _) = _ |- _ => rewrite H end;
   lazy beta iota; cbn [andb];
   repeat match goal with
          | |- context [match clo ?x with _ => _ end] => destruct (clo x)
+         | |- context [match clo2 ?x with _ => _ end] => destruct (clo2 x)
          | |- context [match run ?x with _ => _ end] => destruct (run x)
          | |- context [if ?b then _ else _] => destruct b
          end;
@@ -80,7 +98,7 @@ Lemma decrease c s e s' : cfg_ok c -> Inv c s -> internal e = true ->
   step Fixed c s e = Some s' -> measure s' < measure s.
 Proof.
   intros Hc HI Hint H.
-  destruct HI as ((P1 & P2 & P3 & P4 & P5 & P6 & P7 & P8) & IA & IS & ID & IW & IB & IX & IT & IR & IL & IC).
+  destruct HI as ((P1 & P2 & P3 & P4 & P5 & P6 & P7 & P8) & IA & IS & ID & IW & IB & IX & IT & IR & IL & IC & IC2).
   destruct e; try discriminate Hint; cbn [step] in H; step_inv H; boolprops.
   - (* LoopTop *) mcrunch.
   - (* TakeToken *) mcrunch.
@@ -97,7 +115,7 @@ Proof.
       assert (Hd : (now s + initial c <=? now s) = false) by lia.
       unfold handle_first, fire; proj. destruct (0 <? pending s) eqn:Ep; mcrunch.
   - (* TakeTimer *)
-    unfold measure, run_w, clo_w, due_w, set_run; proj. rewrite H, H0. destruct (clo s); lia.
+    unfold measure, run_w, clo_w, due_w, set_run; proj. rewrite H, H0. lia.
   - (* TimerFire *)
     unfold handle_timer, fire. destruct (0 <? pending s) eqn:Ep; mcrunch.
   - (* RunExit *) mcrunch.
@@ -105,26 +123,47 @@ Proof.
   - (* SignalAbort *) mcrunch.
   - (* CloseLock *) mcrunch.
   - (* CloseReturn *) mcrunch.
+  - (* Close2Lock *) mcrunch.
+  - (* Close2Return *) mcrunch.
 Qed.
 
-Lemma closing_step c s e s' : closing s -> internal e = true -> step Fixed c s e = Some s' ->
-  closing s' \/ clo s' = C_returned.
+(* a Close call's program counter only moves forward, and only by its own events *)
+Definition pc_le (k k' : cpc) : Prop :=
+  (k = C_idle -> k' = C_idle) /\ (k = C_returned -> k' = C_returned) /\
+  (under_way k -> under_way k' \/ k' = C_returned).
+
+Lemma pc_le_refl k : pc_le k k.
+Proof. unfold pc_le. tauto. Qed.
+
+Lemma pc_le_trans a b c : pc_le a b -> pc_le b c -> pc_le a c.
+Proof. unfold pc_le. intros (A1 & A2 & A3) (B1 & B2 & B3). repeat split; intros; intuition. Qed.
+
+Lemma pc_step c s e s' : internal e = true -> step Fixed c s e = Some s' ->
+  pc_le (clo s) (clo s') /\ pc_le (clo2 s) (clo2 s').
 Proof.
-  intros Hcl Hint H. unfold closing in *.
+  intros Hint H.
   destruct e; try discriminate Hint; cbn [step] in H; step_inv H; boolprops;
-    unfold set_run, set_clo; cbn;
-    rewrite ?clo_handle_input, ?clo_handle_timer, ?clo_fire;
-    first [left; exact Hcl | left; right; reflexivity | right; reflexivity | tauto].
+    unfold set_run, set_clo, set_clo2; proj;
+    rewrite ?clo_handle_input, ?clo_handle_timer, ?clo2_handle_input, ?clo2_handle_timer;
+    try (split; apply pc_le_refl);
+    split; try apply pc_le_refl; unfold pc_le, under_way;
+    match goal with Hk : _ = _ |- _ => rewrite Hk end;
+    repeat split; intros; try discriminate; auto;
+    try (destruct H1; discriminate); try (destruct H2; discriminate).
 Qed.
 
-Lemma returned_by_step c s e s' : closing s -> step Fixed c s e = Some s' ->
-  clo s' = C_returned -> wg s' = 0.
+(* the step after which no Close call is under way any more is a return, with wg = 0 *)
+Lemma last_step c s e s' : closing s -> internal e = true -> step Fixed c s e = Some s' ->
+  ~ closing s' -> wg s' = 0.
 Proof.
-  intros Hcl H Hret. unfold closing in Hcl.
-  destruct e; cbn [step] in H; step_inv H; boolprops; unfold set_run, set_clo in *;
-    rewrite ?clo_handle_input, ?clo_handle_timer in Hret; proj_in Hret;
-    try (exfalso; destruct Hcl; congruence).
-  unfold wg, run_alive in *. proj. lia.
+  intros Hcl Hint H Hn.
+  destruct e; try discriminate Hint; cbn [step] in H; step_inv H; boolprops;
+    unfold closing, set_run, set_clo, set_clo2 in *;
+    try (exfalso; apply Hn; proj;
+         rewrite ?clo_handle_input, ?clo_handle_timer, ?clo2_handle_input, ?clo2_handle_timer;
+         first [exact Hcl | left; right; reflexivity | right; right; reflexivity]).
+  - unfold wg, run_alive in *. proj. lia.
+  - unfold wg, run_alive in *. proj. lia.
 Qed.
 
 (* any schedule of internal events is bounded by the measure *)
@@ -141,46 +180,56 @@ Proof.
     cbn [length]. lia.
 Qed.
 
-(* ... and internal events alone bring a Close under way to its return *)
+(* ... and internal events alone bring every Close call under way to its return *)
 Theorem close_returns_inv c : cfg_ok c -> forall n s, Inv c s -> closing s ->
   measure s < Z.of_nat n ->
   exists es s', forallb internal es = true /\ exec Fixed c s es = Some s' /\
-                clo s' = C_returned /\ wg s' = 0.
+                ~ closing s' /\ pc_le (clo s) (clo s') /\ pc_le (clo2 s) (clo2 s') /\ wg s' = 0.
 Proof.
   intros Hc. induction n as [|n IH]; intros s HI Hcl Hm.
   - pose proof (measure_nonneg c s HI). lia.
   - destruct (progress c s Hc HI Hcl) as (e & s1 & Hint & E).
     pose proof (decrease c s e s1 Hc HI Hint E) as Hd.
     pose proof (step_Inv _ _ _ _ _ Hc HI E) as HI1.
-    destruct (closing_step c s e s1 Hcl Hint E) as [Hcl1|Hret].
-    + destruct (IH s1 HI1 Hcl1 ltac:(lia)) as (es & s' & Hall & Hex & Hr & Hw).
-      exists (e :: es), s'. cbn [forallb exec]. rewrite Hint, E. cbn. auto.
-    + exists [e], s1. cbn [forallb exec]. rewrite Hint, E. cbn. repeat split; try assumption.
-      eapply returned_by_step; eassumption.
+    destruct (pc_step c s e s1 Hint E) as (L1 & L2).
+    destruct (closing_dec s1) as [Hcl1|Hn1].
+    + destruct (IH s1 HI1 Hcl1 ltac:(lia)) as (es & s' & Hall & Hex & Hn & M1 & M2 & Hw).
+      exists (e :: es), s'. cbn [forallb exec]. rewrite Hint, E. cbn [andb].
+      split; [exact Hall|]. split; [exact Hex|]. split; [exact Hn|].
+      split; [eapply pc_le_trans; eassumption|]. split; [eapply pc_le_trans; eassumption | exact Hw].
+    + exists [e], s1. cbn [forallb exec]. rewrite Hint, E. cbn [andb].
+      split; [reflexivity|]. split; [reflexivity|]. split; [exact Hn1|].
+      split; [exact L1|]. split; [exact L2|]. eapply last_step; eassumption.
 Qed.
 
 Theorem close_returns c s : cfg_ok c -> reachable Fixed c s -> closing s ->
   (exists e s1, internal e = true /\ step Fixed c s e = Some s1) /\
   (forall e s1, internal e = true -> step Fixed c s e = Some s1 -> 0 <= measure s1 < measure s) /\
   (exists es s', forallb internal es = true /\ exec Fixed c s es = Some s' /\
-                 clo s' = C_returned /\ wg s' = 0 /\ Z.of_nat (length es) <= measure s).
+                 (under_way (clo s) -> clo s' = C_returned) /\
+                 (under_way (clo2 s) -> clo2 s' = C_returned) /\
+                 wg s' = 0 /\ Z.of_nat (length es) <= measure s).
 Proof.
   intros Hc Hr Hcl. pose proof (reachable_Inv _ _ _ Hc Hr) as HI.
   split; [apply progress; assumption|]. split.
   - intros e s1 Hint E. split; [|eapply decrease; eassumption].
     eapply measure_nonneg. eapply step_Inv; eassumption.
-  - destruct (close_returns_inv c Hc (S (Z.to_nat (measure s))) s HI Hcl) as (es & s' & A & B & C & D).
+  - destruct (close_returns_inv c Hc (S (Z.to_nat (measure s))) s HI Hcl)
+      as (es & s' & A & B & Hn & (_ & _ & M1) & (_ & _ & M2) & D).
     { pose proof (measure_nonneg c s HI). lia. }
-    exists es, s'. repeat split; try assumption.
-    pose proof (internal_bounded c Hc es s s' HI A B).
-    pose proof (measure_nonneg c s' (exec_Inv _ _ _ _ _ Hc HI B)). lia.
+    exists es, s'. split; [exact A|]. split; [exact B|]. split; [|split; [|split; [exact D|]]].
+    + intro U. destruct (M1 U) as [X|X]; [exfalso; apply Hn; left; exact X | exact X].
+    + intro U. destruct (M2 U) as [X|X]; [exfalso; apply Hn; right; exact X | exact X].
+    + pose proof (internal_bounded c Hc es s s' HI A B).
+      pose proof (measure_nonneg c s' (exec_Inv _ _ _ _ _ Hc HI B)). lia.
 Qed.
 
-(* non-vacuity: a reachable state with a Close under way, three Adds not yet handled *)
+(* non-vacuity: a reachable state with TWO Close calls under way, three Adds not yet handled *)
 Example close_returns_nonvacuous :
   exists s, exec Fixed (mkcfg 100 400 None) (init (mkcfg 100 400 None))
-              [Model.Add; Model.Add; LoopTop; TakeToken; Model.Add; CloseCall] = Some s /\ closing s.
-Proof. eexists; split; [vm_compute; reflexivity | left; reflexivity]. Qed.
+              [Model.Add; Model.Add; LoopTop; TakeToken; Model.Add; CloseCall; Close2Call] = Some s /\
+            under_way (clo s) /\ under_way (clo2 s).
+Proof. eexists; split; [vm_compute; reflexivity | split; left; reflexivity]. Qed.
 
 (* ------------------------------------------------------------------------------------- *)
 (* Original: the wedge                                                                      *)
@@ -190,7 +239,7 @@ Proof.
   intros ((P1 & P2 & P3 & _) & _) (Hw & Hr) H. unfold wedged in *.
   assert (Hlf : lock_free Original s = false) by (cbn; rewrite Hw; reflexivity).
   destruct e; cbn [step] in H; rewrite ?Hlf, ?andb_false_r in H; cbn [negb] in H;
-    try discriminate H; step_inv H; boolprops; unfold set_run, set_clo; cbn;
+    try discriminate H; step_inv H; boolprops; unfold set_run, set_clo, set_clo2; cbn;
     try (split; assumption);
     try (exfalso; destruct Hr as [Hr|[Hr|Hr]]; congruence).
   (* CloseReturn *)
@@ -361,3 +410,35 @@ Example close_waits_nonvacuous :
      TokenAbort; SignalAbort; CloseLock]
     (fun s => enabled Original ex_cfg s CloseReturn) = true.
 Proof. vm_compute. reflexivity. Qed.
+
+(* ------------------------------------------------------------------------------------- *)
+(* every Close call, while a helper goroutine is alive                                      *)
+
+(* as long as the run loop has not returned (or a token / signal goroutine exists) NO Close
+   call can return, whichever call it is and however many are under way *)
+Theorem close_blocked_while_running v c s : cfg_ok c -> reachable v c s ->
+  run s <> R_exited \/ 0 < tokens s \/ 0 < inflight s ->
+  step v c s CloseReturn = None /\ step v c s Close2Return = None.
+Proof.
+  intros Hc Hr Hal. split.
+  - destruct (step v c s CloseReturn) as [s'|] eqn:E; [|reflexivity]. exfalso.
+    destruct (close_waits v c s CloseReturn s' Hc Hr eq_refl E) as (A & B & C & _).
+    destruct Hal as [X|[X|X]]; [congruence | lia | lia].
+  - destruct (step v c s Close2Return) as [s'|] eqn:E; [|reflexivity]. exfalso.
+    destruct (close_waits v c s Close2Return s' Hc Hr eq_refl E) as (A & B & C & _).
+    destruct Hal as [X|[X|X]]; [congruence | lia | lia].
+Qed.
+
+(* non-vacuity: the run loop inside handleInputCh, two Close calls under way, both waiting *)
+Example close_blocked_nonvacuous :
+  holds_after Fixed ex_cfg
+    [LoopTop; Model.Add; TakeToken; CloseCall; Close2Call; CloseLock; Close2Lock]
+    (fun s => cpc_eqb (clo s) C_waiting && cpc_eqb (clo2 s) C_waiting && rpc_eqb (run s) R_input &&
+              negb (enabled Fixed ex_cfg s CloseReturn) && negb (enabled Fixed ex_cfg s Close2Return)) = true.
+Proof. vm_compute. reflexivity. Qed.
+
+Theorem park_oracle_sound held allc rr leak :
+  park_oracle held allc rr leak = true <-> park_spec held allc rr leak.
+Proof.
+  unfold park_oracle, park_spec. rewrite andb_true_iff, Z.eqb_eq, end_oracle_sound. tauto.
+Qed.
